@@ -239,6 +239,7 @@ theorem checkReset_err (w : World) {α : Type} (e : Err) (c : ErrClass) (h : err
     w.checkConnectionReset (α := α) (.err e) = (w, .err e) := by
   cases e with
   | io k => cases h
+  | connectionClosed => cases h
   | _ => rfl
 
 theorem suffix_length_le {α : Type} {a b : List α} (h : a <:+ b) : a.length ≤ b.length :=
